@@ -374,13 +374,32 @@ func (c *Ctx) RunC08(tier string) {
 			c.checkFor(items, "", nil, fmt.Sprintf("nest %v", cs))
 		}
 	}
-	if c.Sh.I == c.Sh.N-1 {
-		// large counts (the counter grows past one and two digits)
-		for _, cnt := range []int{9, 10, 11, 40, 89} {
-			items := []FItem{{Block: true, Label: "blk", Counter: "i", Count: fmt.Sprintf("%d", cnt), Items: []FItem{{Tmpl: 1}, {Tmpl: 2}}}}
-			epi := ref.AIns{Op: "jmp", A: operand("", "blk_1")}
-			c.checkForN(items, "jmp blk\n", &epi, fmt.Sprintf("count %d", cnt), 200)
+	// every count 7..100 (the counter grows past one and two digits), and bodies of 5..12 lines
+	for cnt := 7; cnt <= 100; cnt++ {
+		if !c.Sh.Mine(cnt) {
+			continue
 		}
+		items := []FItem{{Block: true, Label: "blk", Counter: "i", Count: fmt.Sprintf("%d", cnt), Items: []FItem{{Tmpl: 1}, {Tmpl: 2}}}}
+		epi := ref.AIns{Op: "jmp", A: operand("", "blk_1")}
+		c.checkForN(items, "jmp blk\n", &epi, fmt.Sprintf("count %d", cnt), 200)
+	}
+	for l := 5; l <= 12; l++ {
+		if !c.Sh.Mine(l) {
+			continue
+		}
+		for _, cnt := range []int{0, 1, 2, 3} {
+			var body []FItem
+			for j := 0; j < l; j++ {
+				body = append(body, FItem{Tmpl: (j + l) % 4})
+			}
+			items := []FItem{{Tmpl: 3}, {Block: true, Label: "blk", Counter: "i", Count: fmt.Sprintf("%d", cnt), Items: body}, {Tmpl: 0}}
+			c.checkForN(items, "", nil, fmt.Sprintf("body of %d lines x %d", l, cnt), 200)
+			// the same body inside an outer block
+			outer := []FItem{{Block: true, Counter: "i", Count: "2", Items: []FItem{{Block: true, Counter: "j", Count: fmt.Sprintf("%d", cnt), Items: body}}}}
+			c.checkForN(outer, "", nil, fmt.Sprintf("nested body of %d lines x %d", l, cnt), 200)
+		}
+	}
+	if c.Sh.I == c.Sh.N-1 {
 		items := []FItem{{Block: true, Counter: "i", Count: "12", Items: []FItem{{Block: true, Counter: "j", Count: "i", Items: []FItem{{Tmpl: 3}}}}}}
 		c.checkForN(items, "", nil, "12 x i nest", 200)
 		// four and five levels (the instruction templates use the innermost and outermost counters)
@@ -396,7 +415,7 @@ func (c *Ctx) RunC08(tier string) {
 			c.checkForDeep(deep(cs), fmt.Sprintf("nest %v", cs))
 		}
 	}
-	rep.Bound += "; sequences of 1..14 one-line blocks with counts 0..2; nests 6x3x1, 3x3x3, 2x2x2, 6x1x1, 1x3x3; single blocks with counts 9, 10, 11, 40, 89, a 12 x i nest, nests of depth 4 and 5; one surface variant per program (CR-LF, upper-case FOR/ROF with a comment after ROF, between ORG and END, a trailing comment on every line)"
+	rep.Bound += "; sequences of 1..14 one-line blocks with counts 0..2; nests 6x3x1, 3x3x3, 2x2x2, 6x1x1, 1x3x3; single labelled blocks with every count 7..100, bodies of 5..12 lines (counts 0..3, alone and nested), a 12 x i nest, nests of depth 4 and 5; one surface variant per program (CR-LF, upper-case FOR/ROF with a comment after ROF, between ORG and END, a trailing comment on every line)"
 	rep.Counters["c08:structure-trees"] += int64(n) / int64(c.Sh.N)
 	rep.Sample(forSource([]FItem{{Block: true, Label: "blk", Counter: "i", Count: "n+1", Items: []FItem{{Tmpl: 2}, {Block: true, Counter: "j", Count: "i", Items: []FItem{{Tmpl: 1}}}}}}, "jmp blk\n"))
 }
